@@ -42,10 +42,10 @@ func (h *H) envInit() *nativeEnv {
 // StoreService mounts a KV store; call for every keeper before Ctx().
 func (h *H) StoreService(name string) corestore.KVStoreService {
 	env := h.envInit()
-	if env.loaded {
+	key, ok := env.keys[name]
+	if !ok && env.loaded {
 		h.tb.Fatalf("vrt: StoreService(%s) after Ctx()", name)
 	}
-	key, ok := env.keys[name]
 	if !ok {
 		key = storetypes.NewKVStoreKey(name)
 		env.keys[name] = key
@@ -79,3 +79,20 @@ func (h *H) Logger() log.Logger { return log.NewNopLogger() }
 // GasUsed reports the gas consumed on ctx so far (real gas meter natively, flat-cost ghost
 // counter under the engine).
 func (h *H) GasUsed(ctx sdk.Context) uint64 { return ctx.GasMeter().GasConsumed() }
+
+// TryTx runs f the way baseapp runs a transaction: on a cache-wrapped context whose writes
+// are committed only when f succeeds.
+func (h *H) TryTx(ctx sdk.Context, f func(sdk.Context) error) error {
+	cctx, write := ctx.CacheContext()
+	err := f(cctx)
+	if err == nil {
+		write()
+	}
+	return err
+}
+
+// DryRun runs f on a cache-wrapped context and discards its writes.
+func (h *H) DryRun(ctx sdk.Context, f func(sdk.Context) error) error {
+	cctx, _ := ctx.CacheContext()
+	return f(cctx)
+}
